@@ -629,6 +629,8 @@ class Expression:
         with self.ebpf.get_free_register(dst) as dst:
             with self.get_address(dst, long) as (src, fmt):
                 self.load(dst, src, 0, fmt, long)
+                if long is None:  # tell how wide the value actually is
+                    long = isinstance(fmt, str) and fmt[-1] in "QqAx"
                 yield dst, long
 
     @contextmanager
